@@ -481,6 +481,56 @@ fn a2ml_trees(g: &Grammar) -> Vec<Tree> {
             a2ml_include: true,
         });
     }
+    // the A2ML block itself stands in an A2L include file in another directory; its own /include is relative to that file
+    for (d1, d2, quoted) in [("", "", true), ("sub/", "", true), ("sub/", "aml/", false), ("sub/deep/", "", false), ("", "aml/", true)] {
+        let mut gen = Gen::new(g);
+        let (mut doc, path) = gen.carrier_v("MODULE", 5, 0);
+        let a_idx = doc.root.at(&path).children.len();
+        let mk_a2ml = |gen: &mut Gen, text: &str| {
+            let mut a = gen.min_node("A2ML", 5, 0);
+            a.raw = Some(text.to_string());
+            a
+        };
+        let a_flat = mk_a2ml(&mut gen, &format!("{part1}\n      {part2}\n      "));
+        doc.root.at_mut(&path).children.push(a_flat);
+        for pl in ["VX 5", "VY 7 \"abc\"", "ZZ 1"] {
+            let mut i = gen.min_node("IF_DATA", 5, 0);
+            i.raw = Some(pl.to_string());
+            doc.root.at_mut(&path).children.push(i);
+        }
+        let flat = doc.text();
+        // the same document with the A2ML block (holding an /include) moved to sub/a2ml_block.a2l
+        let aml_rel = format!("{d2}part.aml");
+        let mut doc2 = doc.clone();
+        doc2.root.at_mut(&path).children[a_idx] = mk_a2ml(&mut gen, &format!("{part1}\n      {}\n      ", inc_directive(&aml_rel, quoted)));
+        let mut p2 = path.clone();
+        p2.push(a_idx);
+        let toks = doc2.tokens();
+        let Some((a, b)) = node_token_range(&doc2, &p2) else { continue };
+        let piece = |x: usize, y: usize| -> String {
+            let mut s = String::new();
+            for t in &toks[x..y] {
+                if t.starts_line && !s.is_empty() {
+                    s.push('\n');
+                } else if !s.is_empty() {
+                    s.push(' ');
+                }
+                s.push_str(&t.text);
+            }
+            s.push('\n');
+            s
+        };
+        let blockfile = format!("{d1}a2ml_block.a2l");
+        let main = format!("{}{}\n{}", piece(0, a), inc_directive(&blockfile, quoted), piece(b + 1, toks.len()));
+        out.push(Tree {
+            label: format!("A2ML block in {blockfile}, which includes {aml_rel} relative to itself"),
+            class: format!("a2ml-include:block-in-include-file:dir={}:aml={}", if d1.is_empty() { "." } else { d1 }, if d2.is_empty() { "." } else { d2 }),
+            files: vec![("main.a2l".into(), main), (blockfile, piece(a, b + 1)), (format!("{d1}{aml_rel}"), format!("{part2}\n"))],
+            flattened: flat,
+            includes: 1,
+            a2ml_include: true,
+        });
+    }
     out
 }
 
